@@ -55,6 +55,10 @@ def gen_cases(tier, seed):
                 cases.append({"t": "admit", "side": "D", "step": step, "hmode": hmode, "kind": kind, "towards_sender": ts, "pmode": pmode, "idw": idw, "crc": crc})
                 if kind in ("ACK_EOF", "ACK_FIN"):
                     cases.append(dict(cases[-1], subtype_flip=True))
+                if kind == "MD":
+                    # a Metadata PDU whose file names are not text (bytes which are not UTF-8 / an embedded NUL): still a Metadata PDU
+                    cases.append(dict(cases[-1], binary_name="latin1"))
+                    cases.append(dict(cases[-1], binary_name="nul"))
                 if step not in ("IDLE_FRESH", "IDLE_AFTER_TRANSACTION"):
                     # the PDU belongs to another transaction of the same peer (its next sequence number) while the handler is busy
                     cases.append(dict(cases[-1], tx="next_seq"))
@@ -120,6 +124,16 @@ def run_case(case):
             if case.get("subtype_flip"):
                 raw = flip_ack_subtype(raw, case["idw"], case["crc"])
                 obs["cells_ack_with_other_subtype_code"] = 1
+            if case.get("binary_name"):
+                from .. import models
+
+                b = bytearray(raw)
+                i = b.find(b"src.bin")
+                b[i : i + 2] = b"\xe9\xff" if case["binary_name"] == "latin1" else b"s\x00"
+                if case["crc"]:
+                    b[-2:] = models.crc16_ccitt_false(bytes(b[:-2])).to_bytes(2, "big")
+                raw = bytes(b)
+                obs["cells_metadata_with_binary_file_name"] = 1
             pdu = wire.parse(raw)
             before = (state_snapshot(ep.h), [bytes(x.pack()) for x in ep.h._pdus_to_be_sent])
             outcome = "accepted"
@@ -184,5 +198,5 @@ def exhaustive(tier):
     return True
 
 
-REQUIRED = {"cells_ack_with_other_subtype_code": 200, "cells_route": 288, "cells_admit_other_transaction": 1000, "cells_admit": 1000, "cells_inactive": 1152, "S_accepted": 10, "D_accepted": 10,
+REQUIRED = {"cells_metadata_with_binary_file_name": 400, "cells_ack_with_other_subtype_code": 200, "cells_route": 288, "cells_admit_other_transaction": 1000, "cells_admit": 1000, "cells_inactive": 1152, "S_accepted": 10, "D_accepted": 10,
             "S_exc_InvalidPduForSourceHandler": 10, "D_exc_InvalidPduForDestHandler": 10}
